@@ -47,7 +47,7 @@ pub fn prop30() -> Prop {
 pub fn prop31() -> Prop {
     Prop {
         id: "C31", title: "Seeded simulations are reproducible", level: "exploration",
-        rule: "For generated programs, Seeded{seed}/Known{v} initialization, seeded TimerDevices (exact counts and ranges) with installed ISRs, and keyboard input, two simulators are constructed and run independently (one by step_in, compared step by step; in half of the cases the second is instead driven by run_with_limit segments and compared at segment ends): \
+        rule: "For generated programs, Seeded{seed}/Known{v} initialization, seeded TimerDevices (exact counts, inclusive and half-open ranges) with installed ISRs, and keyboard input, two simulators are constructed and run independently (one by step_in, compared step by step; in half of the cases the second is instead driven by run_with_limit segments and compared at segment ends): \
                in half of the runs both machines are disturbed identically midway (the program is loaded again over the running image, or reset() + reload with the timers still attached); R0-R7, PC, PSR, instructions_run, frame depth, display, keyboard queue after every step, a digest of all 64K words (value and initialization) every 64 steps and at the end. Known{v}: every register and every word outside the OS image and the I/O page holds v and is uninitialized. \
                Non-trivial = run of at least 20 steps with a timer interrupt or uninitialized data read; distinct = (program, seeds).",
         assumptions: &["two constructions in one process are independent (no shared global state besides the cached OS object file)"],
@@ -148,7 +148,8 @@ fn run30(ctx: &mut Ctx) {
     let n = ctx.tier.pick(1_200, 120_000);
     ctx.cases(0, n, |ctx, rng, idx| {
         let init = if idx & 1 == 0 { MachineInitStrategy::Known { value: rng.u16() } } else { MachineInitStrategy::Seeded { seed: rng.next() } };
-        let mut sim = Simulator::new(SimFlags { machine_init: init, ..Default::default() });
+        // the machine starts from random flags (so that the frame stack may have been created recording or not) ...
+        let mut sim = Simulator::new(SimFlags { machine_init: init, debug_frames: rng.bool(), use_real_traps: rng.bool(), strict: rng.chance(1, 4), ignore_privilege: rng.chance(1, 4) });
         sim.mmap_internal(SP_PORT, InternalRegister::SavedSP).unwrap();
         let mcr0 = sim.mcr().clone();
         let mut hist: Vec<String> = vec![];
@@ -162,7 +163,9 @@ fn run30(ctx: &mut Ctx) {
         let nops = 3 + rng.usize(23);
         let case = |hist: &Vec<String>| Json::obj().set("history", Json::Arr(hist.iter().map(|h| Json::from(h.as_str())).collect()));
         for _ in 0..nops {
-            match rng.below(14) {
+            match rng.below(15) {
+                // ... and may be reset in the middle of the history as well (configuration made so far must survive it)
+                14 => { if ctx.no_panic("reset", || case(&hist), || sim.reset()).is_none() { return; } hist.push("reset".into()); ctx.count("histories.with-intermediate-reset"); }
                 0 | 1 => { let prog = gen_user_prog(rng, &ProgOpts::default()); if let Ok(ast) = lc3_ensemble::parse::parse_ast(&prog.text) { if let Ok(o) = lc3_ensemble::asm::assemble(ast) { let _ = sim.load_obj_file(&o); hist.push("load program".into()); } } }
                 2 | 3 => { let k = rng.below(300); let i0 = sim.instructions_run; let mut c = 0; let _ = crate::monitor::guard(|| sim.run_while(|s| { c += 1; c < 2000 && s.instructions_run - i0 < k })); executed = true; hist.push(format!("run {k}")); }
                 4 => { let _ = crate::monitor::guard(|| sim.step_in()); executed = true; hist.push("step_in".into()); }
@@ -221,26 +224,26 @@ fn run30(ctx: &mut Ctx) {
         if executed && configured { ctx.nontrivial(crate::rng::hash_bytes(format!("{hist:?}").as_bytes())); }
         if !recs.is_empty() { ctx.count("resets.with-devices"); }
         if maps.len() > 1 { ctx.count("resets.with-extra-mappings"); }
-        if flags.debug_frames { ctx.count("resets.debug-frames-on"); }
+        if flags.debug_frames { ctx.count("resets.debug-frames-on"); } else if hist.iter().any(|h| h.contains("debug_frames: true")) { ctx.count("resets.debug-frames-turned-off-before"); }
         if nbp > 0 { ctx.count("resets.with-breakpoints"); }
         if ctx.want_sample() && hist.len() < 10 { ctx.sample(c()); }
     });
 }
 fn guard30(m: &Merged, _t: Tier) -> Vec<String> {
     let mut out = vec![];
-    for k in ["resets.with-removed-default-mapping", "resets.with-replaced-default-mapping", "resets.checked", "resets.with-devices", "resets.with-extra-mappings", "resets.debug-frames-on", "resets.with-breakpoints"] { need(m, &mut out, k, 50); }
+    for k in ["resets.with-removed-default-mapping", "resets.with-replaced-default-mapping", "resets.checked", "resets.with-devices", "resets.with-extra-mappings", "resets.debug-frames-on", "resets.with-breakpoints", "histories.with-intermediate-reset"] { need(m, &mut out, k, 50); }
     out
 }
 
 struct D { sim: Simulator, ds: BufferedDisplay, kb: BufferedKeyboard }
 #[allow(clippy::too_many_arguments)]
-fn mk31(text: &str, isr: &str, init: MachineInitStrategy, real: bool, kbd: &[u8], timers: &[(u64, u32, u32, u8)]) -> Option<D> {
+fn mk31(text: &str, isr: &str, init: MachineInitStrategy, real: bool, kbd: &[u8], timers: &[(u64, u32, u32, u8, bool)]) -> Option<D> {
     let mut sim = Simulator::new(SimFlags { machine_init: init, use_real_traps: real, ..Default::default() });
     for t in [text, isr] { let ast = lc3_ensemble::parse::parse_ast(t).ok()?; let o = lc3_ensemble::asm::assemble(ast).ok()?; sim.load_obj_file(&o).ok()?; }
     sim.mem[0x0190] = Word::new_init(0x1000); sim.mem[0x0191] = Word::new_init(0x1000);
     let kb = BufferedKeyboard::default(); kb.get_buffer().write().unwrap().extend(kbd.iter().copied()); sim.device_handler.set_keyboard(kb.clone());
     let ds = BufferedDisplay::default(); sim.device_handler.set_display(ds.clone());
-    for (i, (seed, lo, hi, prio)) in timers.iter().enumerate() { let mut t = TimerDevice::new(Some(*seed), *lo..=*hi, 0x90 + i as u8, *prio); t.enabled = true; sim.device_handler.add_device(t, &[]).ok()?; }
+    for (i, (seed, lo, hi, prio, half_open)) in timers.iter().enumerate() { let mut t = if *half_open { TimerDevice::new(Some(*seed), *lo..*hi + 1, 0x90 + i as u8, *prio) } else { TimerDevice::new(Some(*seed), *lo..=*hi, 0x90 + i as u8, *prio) }; t.enabled = true; sim.device_handler.add_device(t, &[]).ok()?; }
     Some(D { sim, ds, kb })
 }
 fn small(d: &D) -> (u16, Vec<Word>, u16, u64, u64, Vec<u8>, usize) { (d.sim.pc, (0..8).map(|i| d.sim.reg_file[reg(i)]).collect(), d.sim.psr().get(), d.sim.instructions_run, d.sim.frame_stack.len(), d.ds.get_buffer().read().unwrap().clone(), d.kb.get_buffer().read().unwrap().len()) }
@@ -255,7 +258,7 @@ fn run31(ctx: &mut Ctx) {
         let isr = gen_isr(rng, 0x1000, false);
         let kbd: Vec<u8> = (0..prog.kbd_needed + 1).map(|_| rng.next() as u8).collect();
         let nt = rng.usize(3);
-        let timers: Vec<(u64, u32, u32, u8)> = (0..nt).map(|i| { let lo = 15 + rng.below(40) as u32; (rng.next(), lo, if rng.bool() { lo } else { lo + rng.below(30) as u32 }, 2 + 2 * i as u8) }).collect();
+        let timers: Vec<(u64, u32, u32, u8, bool)> = (0..nt).map(|i| { let lo = 15 + rng.below(40) as u32; (rng.next(), lo, if rng.bool() { lo } else { lo + rng.below(30) as u32 }, 2 + 2 * i as u8, rng.bool()) }).collect();
         let real = rng.bool();
         let (Some(mut a), Some(mut b)) = (mk31(&prog.text, &isr, init, real, &kbd, &timers), mk31(&prog.text, &isr, init, real, &kbd, &timers)) else { ctx.count("not-assembled"); return };
         let case = || Json::obj().set("program", prog.text.as_str()).set("init", format!("{init:?}")).set("timers", format!("{timers:?}")).set("kbd", format!("{kbd:?}")).set("real_traps", real);
@@ -309,14 +312,35 @@ fn run31(ctx: &mut Ctx) {
         if steps >= 20 && (entries > 0 || matches!(init, MachineInitStrategy::Seeded { .. })) { ctx.nontrivial(crate::rng::hash_bytes(format!("{}{timers:?}{init:?}", prog.text).as_bytes())); }
         ctx.count_n("steps.compared", steps);
         if entries > 0 { ctx.count("runs.with-timer-interrupts"); }
+        if entries > 0 && timers.iter().any(|t| t.4 && t.2 > t.1) { ctx.count("runs.with-half-open-timer-range"); }
         ctx.count(if by_run { "runs.segmented" } else { "runs.stepwise" });
         ctx.count(match init { MachineInitStrategy::Known { .. } => "init.known", _ => "init.seeded" });
         if ctx.want_sample() && nt > 0 && prog.text.len() < 700 { ctx.sample(case().set("steps", steps).set("timer_entries", entries)); }
     });
+    known_fill(ctx);
+}
+/// C31's last sentence: a known strategy puts the value, uninitialized, in every register and every word outside the OS image and the I/O page
+fn known_fill(ctx: &mut Ctx) {
+    let Some(os) = os_reference() else { ctx.notes.push("could not read or assemble /repo/src/os.asm".into()); return };
+    ctx.cases(1, 64, |ctx, rng, idx| {
+        let value = match idx % 4 { 0 => 0, 1 => 0xFFFF, _ => rng.u16() };
+        let flags = SimFlags { strict: idx & 4 != 0, use_real_traps: idx & 8 != 0, debug_frames: idx & 16 != 0, ignore_privilege: idx & 32 != 0, machine_init: MachineInitStrategy::Known { value } };
+        ctx.eval();
+        let case = || Json::obj().set("flags", format!("{flags:?}"));
+        let Some(mut sim) = ctx.no_panic("Simulator::new", case, || Simulator::new(flags)) else { return };
+        for round in 0..2 {
+            for a in 0..0xFE00u16 { if !os.contains_key(&a) { let m = sim.mem[a]; if m.get() != value || m.is_init() { ctx.violation("known-fill-memory", format!("{}: mem[x{a:04X}] = {m:?}, expected uninitialized x{value:04X}", if round == 0 { "fresh machine" } else { "after reset" }), case()); return; } } }
+            for i in 0..8 { let m = sim.reg_file[reg(i)]; if m.get() != value || m.is_init() { ctx.violation("known-fill-register", format!("R{i} = {m:?}, expected uninitialized x{value:04X}"), case()); return; } }
+            if round == 0 { for a in [0x3000u16, 0xFDFF, 0x0500, 0x8000] { sim.mem[a] = Word::new_init(!value); } sim.reg_file[reg(3)].set(!value); if ctx.no_panic("reset", case, || sim.reset()).is_none() { return; } }
+        }
+        ctx.count("known-fill.machines");
+        ctx.nontrivial(crate::rng::hash64(&[value as u64, idx, 31]));
+    });
 }
 fn guard31(m: &Merged, _t: Tier) -> Vec<String> {
     let mut out = vec![];
-    for k in ["runs.with-timer-interrupts", "runs.segmented", "runs.stepwise", "init.known", "init.seeded", "runs.reset-and-reload-midway", "runs.reload-midway"] { need(m, &mut out, k, 30); }
+    need(m, &mut out, "known-fill.machines", 16);
+    for k in ["runs.with-timer-interrupts", "runs.with-half-open-timer-range", "runs.segmented", "runs.stepwise", "init.known", "init.seeded", "runs.reset-and-reload-midway", "runs.reload-midway"] { need(m, &mut out, k, 30); }
     need(m, &mut out, "steps.compared", 50_000);
     out
 }
